@@ -50,6 +50,14 @@ CORPUS = [
          doc={'d': {'x': 1, 'other': 2}}, norm=False),
     dict(schema={'d': {'type': 'dict', 'allow_unknown': False, 'oneof': [{'schema': {'x': {'type': 'integer'}}}, {'maxlength': 5}]}},
          doc={'d': {'x': 1, 'other': 2}}, cfg={'allow_unknown': True}, norm=False),
+    # an *of rule inside a sub-document whose allow_unknown differs from the root's; neither field nor definition sets it
+    dict(schema={'outer': {'type': 'dict', 'allow_unknown': True,
+                           'schema': {'inner': {'anyof': [{'type': 'dict', 'schema': {'x': {'type': 'integer'}}}, {'type': 'string'}]}}}},
+         doc={'outer': {'inner': {'x': 1, 'extra': 2}}}, norm=False),
+    dict(schema={'outer': {'type': 'dict', 'allow_unknown': False,
+                           'schema': {'inner': {'noneof': [{'type': 'dict', 'schema': {'x': {'type': 'integer'}}}, {'type': 'string'}],
+                                                'type': 'dict'}}}},
+         doc={'outer': {'inner': {'x': 1, 'extra': 2}}}, cfg={'allow_unknown': True}, norm=False),
     # update flag reaching every child, None values ignored
     dict(schema={'m': {'type': 'dict', 'valuesrules': {'type': 'dict', 'schema': {'r': {'required': True}, 's': {'type': 'integer'}}}},
                  'l': {'type': 'list', 'schema': {'type': 'dict', 'require_all': True, 'schema': {'p': {}, 'q': {}}}},
